@@ -1,4 +1,5 @@
 import RsModel.Lemmas.WarmMap
+import RsModel.Spec.RootCalls
 import RsModel.Lemmas.ReplayMap
 /-!
 # Call histories on a CachedSource wrapper itself: `map()` and `stream_chunks` share one cache entry (C10)
@@ -11,27 +12,6 @@ length, every stream attributes every byte exactly as the wrapped source's strea
 maps, each of which resolves every position exactly as that stream does.
 -/
 namespace Rs
-
-/-- the calls an outside caller can make on the wrapper with columns = true -/
-inductive RCall where
-  | stream
-  | map
-deriving DecidableEq
-
-inductive RAns where
-  | stream (r : SResult)
-  | map (m : Option SMap)
-
-def rootKey (id : Nat) : Nat × Opts := (id, ⟨true, false⟩)
-
-def rootCall (id : Nat) (inner : Src) (c : RCall) (σ : Store) : RAns × Store :=
-  match c with
-  | .stream => (.stream ((Src.cached id inner).stream ⟨true, false⟩ σ).1, ((Src.cached id inner).stream ⟨true, false⟩ σ).2)
-  | .map => (.map ((Src.cached id inner).map ⟨true, false⟩ σ).1, ((Src.cached id inner).map ⟨true, false⟩ σ).2)
-
-def runRoot (id : Nat) (inner : Src) : List RCall → Store → List RAns × Store
-  | [], σ => ([], σ)
-  | c :: cs, σ => ((rootCall id inner c σ).1 :: (runRoot id inner cs (rootCall id inner c σ).2).1, (runRoot id inner cs (rootCall id inner c σ).2).2)
 
 /-- the wrapped source's own map (what `map()` stores) and the map re-encoded from its normal-mode stream (what streaming stores) -/
 def mapFill (inner : Src) : Option SMap := (getMap inner ⟨true, false⟩ []).1
